@@ -21,6 +21,8 @@ pub enum Content {
     Coupons(Vec<(u32, u8)>),
     /// one coupon per register (base + geometric) followed by n hashed keys
     Sweep { base: u8, seed: u64 },
+    /// every register holds exactly `val` (Hll4: cur_min = val, no register above it)
+    Fill { val: u8 },
 }
 
 #[derive(Debug, Clone, Serialize, Deserialize)]
@@ -68,6 +70,7 @@ fn content_strategy() -> impl Strategy<Value = Content> {
         5 => (40u32..=40_000, any::<u64>()).prop_map(|(n, seed)| Content::Keys { n, seed }),
         3 => proptest::collection::vec((0u32..(1 << 26), value_strategy()), 1..60).prop_map(Content::Coupons),
         2 => (1u8..=40, any::<u64>()).prop_map(|(base, seed)| Content::Sweep { base, seed }),
+        1 => (1u8..=63).prop_map(|val| Content::Fill { val }),
     ]
 }
 
@@ -128,6 +131,11 @@ pub fn content_coupons(c: &Content, lg_k: u8) -> Vec<u32> {
             for s in 0..(1u32 << lg_k) {
                 let v = (*base as u32 + sm.next().leading_zeros()).min(63);
                 out.push((v << 26) | s);
+            }
+        }
+        Content::Fill { val } => {
+            for s in 0..(1u32 << lg_k) {
+                out.push(((*val as u32).clamp(1, 63) << 26) | s);
             }
         }
     }
